@@ -68,6 +68,12 @@ def showRes {α} (f : α → String) : Res α → String
   | .ub => "ub"
   | .fuel => "fuel"
 
+/-- after a panic the objects are gone: the line is just `panic` -/
+def fin {α} (r : Res α) (s : String) : String :=
+  match r with
+  | .panic => "panic"
+  | _ => s
+
 def showUnit : Unit → String := fun _ => "ok"
 def showN : Nat → String := fun n => s!"ok:{n}"
 
@@ -170,8 +176,8 @@ def bseqStep (r : Rd) (op : String) : Option (String × Rd × Bool) :=
   else none
 
 /-- run the steps; after a panic the object is gone: remaining steps print `-` -/
-def bseqRun : Rd → List String → Bool → Option (List String × Rd)
-  | r, [], _ => some ([], r)
+def bseqRun : Rd → List String → Bool → Option (List String × Option Rd)
+  | r, [], dead => some ([], if dead then none else some r)
   | r, op :: rest, dead =>
     if dead then (bseqRun r rest true).map fun (o, r') => ("-" :: o, r')
     else
@@ -212,8 +218,8 @@ def wseqStep (w : Wr) (op : String) : Option (String × Wr × Bool) :=
       (s!"x={showRes showUnit res}", w', isDead res)
   else none
 
-def wseqRun : Wr → List String → Bool → Option (List String × Wr)
-  | w, [], _ => some ([], w)
+def wseqRun : Wr → List String → Bool → Option (List String × Option Wr)
+  | w, [], dead => some ([], if dead then none else some w)
   | w, op :: rest, dead =>
     if dead then (wseqRun w rest true).map fun (o, w') => ("-" :: o, w')
     else
@@ -229,69 +235,71 @@ def step (_ : Unit) (line : String) : Unit × String :=
       match parseRd r, parseDst d with
       | some r, some d =>
         let (res, r', d') := readExact (fuelFor (some r) none d.cap) r d
-        s!"{showRes showUnit res} {showDst d'} | {showRd r'}"
+        fin res (s!"{showRes showUnit res} {showDst d'} | {showRd r'}")
       | _, _ => "bad-op"
     | ["re", r, d] =>
       match parseRd r, parseDst d with
       | some r, some d =>
         let (res, r', d') := readToEnd (fuelFor (some r) none d.cap) r d
-        s!"{showRes showN res} {showDst d'} | {showRd r'}"
+        fin res (s!"{showRes showN res} {showDst d'} | {showRd r'}")
       | _, _ => "bad-op"
     | ["ap", r, d] =>
       match parseRd r, parseDst d with
       | some r, some d =>
         let (res, r', d') := append r d
-        s!"{showRes showN res} {showDst d'} | {showRd r'}"
+        fin res (s!"{showRes showN res} {showDst d'} | {showRd r'}")
       | _, _ => "bad-op"
     | ["rd", r, d] =>
       match parseRd r, parseDst d with
       | some r, some d =>
         let (res, r', d') := readOnce r d
-        s!"{showRes showN res} {showDst d'} | {showRd r'}"
+        fin res (s!"{showRes showN res} {showDst d'} | {showRd r'}")
       | _, _ => "bad-op"
     | ["rv", r, m] =>
       match parseRd r, parseMembers m with
       | some r, some m =>
         let (res, r', vs) := r.readVectored (VS.plain m)
-        s!"{showRes showN res} {showMembers vs.bufs} | {showRd r'}"
+        fin res (s!"{showRes showN res} {showMembers vs.bufs} | {showRd r'}")
       | _, _ => "bad-op"
     | ["rvx", r, m] =>
       match parseRd r, parseMembers m with
       | some r, some m =>
         let (res, r', m') := readVectoredExact (fuelFor (some r) none (sumNat (viewCaps m 0))) r m
-        s!"{showRes showUnit res} {showMembers m'} | {showRd r'}"
+        fin res (s!"{showRes showUnit res} {showMembers m'} | {showRd r'}")
       | _, _ => "bad-op"
     | ["bseq", r, ops] =>
       match parseRd r with
       | some r =>
         match bseqRun r (listOf "," ops) false with
-        | some (outs, r') => s!"{" ".intercalate outs} | {showRd r'}"
+        | some (outs, r') =>
+          s!"{if outs.isEmpty then "." else " ".intercalate outs} | {(r'.map showRd).getD "dead"}"
         | none => "bad-op"
       | none => "bad-op"
     | ["wa", w, d] =>
       match parseWr w, parseHex d with
       | some w, some d =>
         let (res, w') := writeAll (fuelFor none (some w) d.length) w d
-        s!"{showRes showUnit res} | {showWr w'}"
+        fin res (s!"{showRes showUnit res} | {showWr w'}")
       | _, _ => "bad-op"
     | ["wva", w, m] =>
       match parseWr w, parseViews m with
       | some w, some m =>
         let (res, w') := writeVectoredAll (fuelFor none (some w) (sumNat (m.map List.length))) w m
-        s!"{showRes showUnit res} | {showWr w'}"
+        fin res (s!"{showRes showUnit res} | {showWr w'}")
       | _, _ => "bad-op"
     | ["wseq", w, ops] =>
       match parseWr w with
       | some w =>
         match wseqRun w (listOf "," ops) false with
-        | some (outs, w') => s!"{" ".intercalate outs} | {showWr w'}"
+        | some (outs, w') =>
+          s!"{if outs.isEmpty then "." else " ".intercalate outs} | {(w'.map showWr).getD "dead"}"
         | none => "bad-op"
       | none => "bad-op"
     | ["cp", r, w, size] =>
       match parseRd r, parseWr w, size.toNat? with
       | some r, some w, some size =>
         let (res, r', w') := copy (fuelFor (some r) (some w) size) r w size
-        s!"{showRes showN res} | {showRd r'} | {showWr w'}"
+        fin res (s!"{showRes showN res} | {showRd r'} | {showWr w'}")
       | _, _, _ => "bad-op"
     | _ => "bad-op"
   ((), out)
